@@ -63,22 +63,99 @@ PROPERTIES["C14"] = {
 
 
 # ------------------------------------------------------------------------------------------------
-BUILDS["proto"] = {"files": ["network__protocol.rs", "network__protocol@b.rs"], "consts": {"PENDING_OUTPUT_SIZE": 4}}
+BUILDS["proto"] = {"files": ["network__protocol.rs", "network__protocol@b.rs", "network__protocol@c.rs"],
+                   "consts": {"PENDING_OUTPUT_SIZE": 4, "MAX_CHECKSUM_HISTORY_SIZE": 4}}
+BUILDS["queue"] = {"files": ["input_queue.rs", "sync_layer.rs"], "consts": {"INPUT_QUEUE_LENGTH": 8},
+                   "consts_thorough": {"INPUT_QUEUE_LENGTH": 16}}
+BUILDS["tsync"] = {"files": ["time_sync.rs"], "consts": {}}
+BUILDS["sess_ep"] = {"files": ["input_queue.rs", "sync_layer.rs", "network__protocol.rs", "sessions__p2p_session@ep.rs"],
+                     "consts": {"INPUT_QUEUE_LENGTH": 8, "VCOLL_CAP": 4}}
 
-U_TIMERS = [H(n, "proto", mem=8) for n in ["u_poll_interrupt_timer", "u_poll_disconnect_timer", "u_poll_both_in_order",
+RING = {"extend_with": 17}
+def Q(n, **kw):
+    kw.setdefault("timeout", 900); kw.setdefault("mem", 10); kw.setdefault("timeout_thorough", 5400); kw.setdefault("mem_thorough", 24)
+    return H(n, "queue", unwindset=RING, **kw)
+
+Q_ADD = [Q("q_add_step_rl"), Q("q_add_step_def")]
+Q_INPUT = [Q("q_input_step_rl"), Q("q_input_step_def")]
+Q_MISC = [Q("q_discard_step"), Q("q_confirmed_input_step"), Q("q_reset_step")]
+Q_DELAY = [Q("q_delay_increase_steady")]
+S_MIN = [Q("s_consistency_is_min", mem=6)]
+S_INPUTS = [Q("s_synchronized_inputs_contract", mem=8), Q("s_confirmed_inputs_contract", mem=8)]
+S_CONF = [Q("s_set_last_confirmed_contract", mem=8)]
+S_CELLS = [Q("s_cells_ring_w1", mem=8), Q("s_cells_ring_w2", mem=8), Q("s_cells_ring_w3", mem=8)]
+
+def U(n, **kw):
+    kw.setdefault("mem", 8)
+    return H(n, "proto", **kw)
+
+U_TIMERS = [U(n) for n in ["u_poll_interrupt_timer", "u_poll_disconnect_timer", "u_poll_both_in_order",
             "u_poll_interrupt_payload_default", "u_poll_interrupt_payload_zero", "u_poll_interrupt_payload_saturating", "u_poll_interrupt_payload_one"]]
-U_LIVENESS = [H(n, "proto", mem=8) for n in ["u_foreign_magic_ignored", "u_liveness_and_resume"]]
-U_MALFORMED = [H(n, "proto", mem=8) for n in ["u_input_wrong_status_count_dropped", "u_input_negative_start_dropped"]]
-U_LOSTACK = [H(n, "proto", mem=8) for n in names_in("network__protocol@b.rs", "u_lost_ack_reply_.*")]
-U_STREAM_Q = [H(n, "proto", timeout=600, mem=14) for n in names_in("network__protocol@b.rs", "u_on_input_stream_.*_k1")] + \
-             [H("u_on_input_stream_l5_s7_k2", "proto", mem=8), H("u_input_ack_content", "proto", timeout=600, mem=10),
-              H("u_ack_releases_prefix", "proto", mem=8), H("u_send_input_packet_shape", "proto", mem=8)]
-U_STREAM_T = [H(n, "proto", tier="thorough", timeout=3000, mem=44) for n in
+U_LIVENESS = [U(n) for n in ["u_foreign_magic_ignored", "u_liveness_and_resume"]]
+U_MALFORMED = [U(n) for n in ["u_input_wrong_status_count_dropped", "u_input_negative_start_dropped"]]
+U_LOSTACK = [U(n) for n in names_in("network__protocol@b.rs", "u_lost_ack_reply_.*")]
+U_STREAM_Q = [U(n, timeout=600, mem=14) for n in names_in("network__protocol@b.rs", "u_on_input_stream_.*_k1")] + \
+             [U("u_on_input_stream_l5_s7_k2"), U("u_input_ack_content", timeout=600, mem=10),
+              U("u_ack_releases_prefix"), U("u_send_input_packet_shape")]
+U_STREAM_T = [U(n, tier="thorough", timeout=3000, mem=44) for n in
               ["u_on_input_stream_l5_s5_k2", "u_on_input_first_packet_s0", "u_on_input_first_packet_s2"]]
+U_CAP = [U("u_pending_output_cap_disconnect_once")]
+U_HANDSHAKE = [U(n) for n in ["u_handshake_step", "u_sync_reply_after_handshake_ignored", "u_sync_request_echoed", "u_sync_retry_timer"]]
+U_QUALITY = [U(n) for n in ["u_local_frame_advantage", "u_quality_report_and_reply", "u_quality_report_sent", "u_network_stats_contract"]]
+U_CHECKSUM = [U("u_checksum_report_store_bounded")]
+M_ALL = [H(n, "tsync", mem=6, timeout=600) for n in ["m_average_within_one", "m_steady_lead", "m_advance_frame_slot"]]
+PE_CUTOFF = [H("pe_cutoff_agreement_gossip_not_earlier", "sess_ep", timeout=900, mem=12, unwindset={"extend_with": 9}),
+             H("pe_cutoff_agreement_gossip_earlier", "sess_ep", timeout=900, mem=12, unwindset={"extend_with": 9}, finding="F3")]
 
-PROPERTIES["C05"] = {
-    "level": "model_checking",
-    "harnesses": U_LOSTACK + U_STREAM_Q + U_STREAM_T,
-    "claim": "TODO",
-    "note": "TODO",
-}
+IND_NOTE = ("[IND] harnesses quantify over every pre-state satisfying the stated representation invariant (one step covers histories of any length "
+            "for the regenerated ring size); [FN]/[BMC] harnesses over all symbolic arguments/values at the enumerated shapes. ")
+
+def P(pid, harnesses, claim, note, **kw):
+    d = {"level": "model_checking", "harnesses": harnesses, "claim": claim, "note": IND_NOTE + note}
+    d.update(kw)
+    PROPERTIES[pid] = d
+
+P("C01", Q_ADD + Q_INPUT + Q_MISC + S_MIN + S_CONF + U_STREAM_Q + U_STREAM_T,
+  "Kernels of the confirmed-timeline property decided on the real code: (Q, inductive, any history/ring wrap) add_input stores gaplessly, flags the earliest frame whose real input differs from the prediction handed out, input() hands out stored values as Confirmed; discard never drops a frame that can still be requested; (S) the rollback target is the earliest of all mispredictions and the disconnect frame; confirmed-frame bookkeeping keeps every frame a rollback can ask for; (U) the receiver delivers exactly the frames after its newest one, once, in order, with the packet's values, and acks release exactly the acknowledged prefix.",
+  "Session-level composition (several ticks of P2PSession from its initial state) is outside what CBMC can symbolically execute here (a 4-tick run needs > 2M symex steps and > 40 GB); the claim is the conjunction of the component contracts, not an end-to-end run. Ring size 8 (quick) / 16 (thorough) instead of 128; u8 inputs; packets of 1-2 decoded inputs.")
+P("C02", S_CELLS + Q_MISC + S_CONF,
+  "Saved-state ring: after saving w+1 consecutive frames (the most a session holds) each of the w frames still open to rollback is loadable and returns exactly what was saved for it, for w = 1,2,3 and any base frame; load_frame moves the frame counter to the loaded frame; queue windows keep every frame from (confirmed-1) on.",
+  "The request-list shape of whole advance_frame calls is decided only through these component contracts (see C01 note).")
+P("C03", Q_INPUT + Q_ADD + S_INPUTS,
+  "Input status truthfulness on the real InputQueue/SyncLayer: Confirmed <=> the frame's real input is stored, and the value is that input; Predicted => not yet received and value = predictor(newest received) (default if none), for PredictRepeatLast and PredictDefault, from any queue state; Disconnected <=> the player is disconnected as of an earlier frame, with the default input; the boundary frame (last real input) stays Confirmed.",
+  "confirmed_frame() monotonicity and finality across whole sessions rest on the component contracts (see C01 note).")
+P("C05", U_LOSTACK + U_STREAM_Q + U_HANDSHAKE + U_STREAM_T,
+  "Lost-ack lemma on the real on_input: a retransmission whose base frame the receiver has already pruned (1/3/5 lost acks for prediction window 0/1/2) is answered with an ack for the receiver's newest frame, so the sender's base moves forward; acks release exactly the acknowledged prefix and leave the pending outputs starting right after the new base; duplicates/overlaps are skipped without double delivery; handshake: one inductive step from any Synchronizing state on any SyncReply, retry timer.",
+  "Bounded liveness over multi-packet fault schedules with two live endpoints is not run (cost); the lemma plus the ack/stream contracts are its inductive core.")
+P("C07", U_TIMERS + S_MIN + S_INPUTS,
+  "Timers on the real poll(): NetworkInterrupted iff not yet announced and silence > notify delay (payload timeout-notify), Disconnected iff not yet sent and silence > timeout, never earlier, each once, in this order; rollback target includes the disconnect frame (min); a disconnected player's inputs are default/Disconnected exactly for frames after its last real one.",
+  "The survivor's multi-tick timeline after a drop is covered only through these contracts.")
+P("C08", U_MALFORMED + U_LIVENESS + [h for h in K_QUICK if h["name"].startswith(("k_rle_stage_total", "k_rle_guard", "k_delta_total"))],
+  "On the real handle_message/on_input/decode: an input packet with a wrong number of connection statuses or ANY negative start frame is dropped with no effect at all (no ack processed, no gossip merged, nothing delivered, no reply); a packet with another session's magic has no effect and does not refresh the receive timer; every byte string (<= 3 bytes through the RLE stage, <= 5 through the guard, every delta shape <= 5 bytes) is decoded or rejected without panic/overflow/OOB and without oversized allocation.",
+  "Narrow reading of 'wrong size': payload not divisible by the player count or not deserialisable; a header-valid packet with garbage payload still has its ack/gossip processed (as the code documents).")
+P("C09", U_CHECKSUM,
+  "Checksum report store of an endpoint stays within its cap under in-order reports (cap regenerated to 4), oldest entry dropped first, newest stored.",
+  "Only the buffer/ordering kernel; the no-false-alarm half needs multi-tick session runs (outside reach).")
+P("C10", PE_CUTOFF + S_MIN,
+  "Cut-off agreement kernel on the real update_player_disconnects with real endpoints: when a surviving peer gossips that a player is disconnected as of frame m and this peer holds its inputs up to L, this peer adopts min(L, m), schedules the resimulation from the next frame and does not re-arm it on the next tick.",
+  "KNOWN FINDING F3: for m < L the unchanged tree keeps last_frame = L (see known_findings.json).")
+P("C11", Q_DELAY + Q_ADD,
+  "InputQueue delay change in steady state: the fills set_frame_delay announces are exactly the frames and values the queue stores when the next input is added (gapless, repeat-last); a decrease drops the next submission.",
+  "Sequences of changes before the queue has drained are a known finding candidate (F4) not yet witnessed by a harness.")
+P("C12", U_HANDSHAKE + U_LIVENESS + U_TIMERS + U_CAP,
+  "Lifecycle on the real endpoint: Synchronizing counts 1..4 then exactly one Synchronized after five distinct matched round trips (duplicates/stray/foreign replies do not count); NetworkResumed iff an interruption was announced; interruption/disconnect timers; a silent peer over the pending-output cap is asked to disconnect exactly once.",
+  "Session-level forwarding and the event-queue cap are not yet covered.")
+P("C14", K_QUICK + K_THOROUGH, PROPERTIES["C14"]["claim"], PROPERTIES["C14"]["note"],
+  bounds=PROPERTIES["C14"]["bounds"], outside=PROPERTIES["C14"]["outside"], assumptions=PROPERTIES["C14"]["assumptions"])
+P("C15", M_ALL + U_QUALITY,
+  "Kernel only: TimeSync average (f32 bit-precise) within one frame of the true mean difference and within one of k in a steady k-frame lead; frame-advantage formula; quality report/reply bookkeeping (ping = now - echoed timestamp, what one side reports as local is the other's remote); network_stats error/values contract.",
+  "The closed-loop settling claims need >= 30 frames of two live sessions: outside reach.", level="other")
+P("C17", U_HANDSHAKE,
+  "Handshake behaviour is the same function of message order for every value of the random nonces (nonces symbolic in the inductive step).",
+  "Hash-order independence (solver-chosen permutations of map iteration) not yet built.")
+P("C18", U_CAP + U_CHECKSUM + U_STREAM_Q + Q_ADD,
+  "Bounds on the real buffers: remembered received inputs stay within [newest-2w, newest]; unacknowledged outputs of a silent peer trigger exactly one disconnect request at the cap; checksum store <= cap; InputQueue length <= ring size.",
+  "Session-level buffers (event queue, outgoing local inputs) not yet covered.")
+
+for pid in ("C04", "C06", "C13", "C16"):
+    NOT_APPLICABLE[pid] = "harnesses for this property are still being built in this phase; no claim is made yet"
